@@ -308,7 +308,7 @@ def replay_bed(d):
     return (not p), "seed %s: %s" % (d["inputs"]["seed"], p or "valid BED12")
 
 
-@bounded("C14.bed_lines", ["C14"], note="the real BEDPrinter writing into a StringIO for random well-formed exon lists: the printed "
+@bounded("C14.bed_lines", ["C14"], shards=4, note="the real BEDPrinter writing into a StringIO for random well-formed exon lists: the printed "
          "line is parsed back and checked against the BED12 rules (covers the string formatting the extracted proof drops)")
 def c14_bed(tier, rng):
     n = 500 if tier == "quick" else 20000
@@ -360,7 +360,7 @@ def replay_mgf(d):
     return (not p), "seed %s: %s" % (d["inputs"]["seed"], p or "ok")
 
 
-@bounded("C14.match_genomic_features", ["C14", "C13"], note="the assumed contract of match_genomic_features (result[i] is read[i] or a known "
+@bounded("C14.match_genomic_features", ["C14", "C13"], shards=4, note="the assumed contract of match_genomic_features (result[i] is read[i] or a known "
          "feature within delta at both sites) checked on the real function for random sorted feature lists")
 def c14_mgf(tier, rng):
     n = 1500 if tier == "quick" else 60000
@@ -422,7 +422,7 @@ def replay_e2e(d):
     return (not p), "seed %s %s: %s" % (d["inputs"]["seed"], desc, p or "valid")
 
 
-@bounded("C14.corrected_end_to_end", ["C14"], note="reads derived from annotated isoforms by 11 kinds of perturbation (truncation, jitter, "
+@bounded("C14.corrected_end_to_end", ["C14"], shards=8, note="reads derived from annotated isoforms by 11 kinds of perturbation (truncation, jitter, "
          "terminal exons misplaced into the neighbouring intron on either or both sides, skipped exon, fake terminal micro-exon, retention, "
          "intron shift, novel exon) go through the real AlignmentInfo -> profiles -> LongReadAssigner -> ExonCorrector under all six "
          "strategies: corrected blocks must be positive, ascending, non-overlapping; strategy none must leave the alignment unchanged; "
